@@ -36,6 +36,7 @@ fn dispatch(prop: &str, ctx: &Ctx, replay: Option<&[String]>) -> bool {
     "C15" => p!(c15),
     "C16" => p!(c16),
     "C17" => p!(c17),
+    "C18" => p!(c18),
     _ => false,
   }
 }
